@@ -332,7 +332,8 @@ def plant(kind, stmts, pos, lead="", tag="q"):
 # ---- diagnostics with locations in TWO files ------------------------------------------------------
 # name -> (identifier, severity, statement for the OTHER file, statement for the CULPRIT's file, order, include_ok, note)
 #   the culprit is the declaration pdpy11 meets second; the report site passes (culprit, previous) in that order.
-#   order 'second': the culprit's file must be linked after the other one;  'any': either link order
+#   order 'second': the culprit's file is linked after the other one (pdpy11 meets its declaration second); both
+#   orders of the file NAMES are exercised through CROSS_NAMES (a+b / z+b / lib+main / main+lib)
 #   include_ok: also meaningful with the culprit's file pulled in by '.include' from the other file
 Cross = collections.namedtuple("Cross", "name ident severity other culprit order include_ok note")
 CROSS = collections.OrderedDict()
@@ -343,16 +344,16 @@ for _c in [
           "both locations are whole assignments"),
     Cross("x-duplicate-extern-directive", "duplicate-symbol", "error", "xe{u}: nop\n.extern «xe{u}»", "xe{u}: nop\n.extern «xe{u}»", "second", True,
           "'.extern' is evaluated late, in file order; the locations are the operands"),
-    Cross("x-extern-directive-after-exported-label", "duplicate-symbol", "error", "«xm{u}::» nop", "xm{u}: nop\n.extern «xm{u}»", "any", True,
-          "labels are declared while compiling, '.extern' when evaluated: the '.extern' is second in either link order"),
-    Cross("x-extern-all-after-exported-label", "duplicate-symbol", "error", "«xa{u}::» nop", ".extern «all»\nxa{u}: nop", "any", True,
+    Cross("x-extern-directive-after-exported-label", "duplicate-symbol", "error", "«xm{u}::» nop", "xm{u}: nop\n.extern «xm{u}»", "second", True,
+          "label first, '.extern' in the file linked after it second"),
+    Cross("x-extern-all-after-exported-label", "duplicate-symbol", "error", "«xa{u}::» nop", ".extern «all»\nxa{u}: nop", "second", True,
           "'.extern all' is the reported location of what it exports"),
     Cross("x-exported-constant-after-exported-label", "duplicate-symbol", "error", "«xk{u}::» nop", "«xk{u} == 7»", "second", True,
           "label first, constant second"),
     Cross("x-second-link", "address-conflict", "error", "«.link 1000»", "«.link 2000»", "second", False,
           "compiler.set_link_address: (this statement, where the base was set); an included file has its own base"),
-    Cross("x-link-after-dot-assignment", "address-conflict", "error", "«. = 1000»", "«.link 2000»", "any", False,
-          "'. = e' sets the base while compiling, '.link' when evaluated: the '.link' is second in either link order"),
+    Cross("x-link-after-dot-assignment", "address-conflict", "error", "«. = 1000»", "«.link 2000»", "second", False,
+          "'. = e' before the base is known sets it; the '.link' in the file linked after it is second"),
 ]:
     CROSS[_c.name] = _c
 
